@@ -5,6 +5,7 @@
        call = {"k":"homog","cell":c,"name":n,"initW":b,"elems":[[v,ok]…]} | {"k":"set"|"iset","cell":c,"name":n,"elems":…}
             | {"k":"map","kc":c,"vc":c,"name":n,"entries":[[[k,ok],[v,ok]]…]} | {"k":"pos","base":c,"name":n,"n":k,"elems":…}
             | {"k":"wrap","kind":"allOf"|"anyOf"|"oneOf"|"notField","name":n,"v":v,"opts":[[cell,ok]…]}
+            | {"k":"nest","cell":c,"name":n,"kind":…,"elems":[[v,[[cell,ok]…]]…]}
        a schedule lists thread ids at EVENT granularity: entry `t` = thread `t` runs up to and including its next step
        that touches a shared cell or starts a temp structure (what the harness observes); after the listed entries every
        thread runs to completion
@@ -29,6 +30,18 @@ def elemOfJson (j : Json) : Except String (Int × Bool) := do
 def elemsOf (j : Json) (k : String) : Except String (List (Int × Bool)) := do
   (← (← j.getObjVal? k).getArr?).toList.mapM elemOfJson
 
+def wkindOf : String → Except String WKind
+  | "allOf" => pure WKind.allOf
+  | "anyOf" => pure WKind.anyOf
+  | "oneOf" => pure WKind.oneOf
+  | "notField" => pure WKind.notField
+  | s => throw s!"unknown wrapper kind {s}"
+
+def optOfJson (o : Json) : Except String (Nat × Bool) := do
+  let a ← o.getArr?
+  if a.size != 2 then throw "opt: expected [cell, ok]"
+  pure ((← a[0]!.getNat?), (← a[1]!.getBool?))
+
 def callOfJson (j : Json) : Except String Call := do
   let k ← (← j.getObjVal? "k").getStr?
   let name ← (← j.getObjVal? "name").getStr?
@@ -46,17 +59,17 @@ def callOfJson (j : Json) : Except String Call := do
     pure (.pos (← (← j.getObjVal? "base").getNat?) name (← (← j.getObjVal? "n").getNat?) (← elemsOf j "elems"))
   | "iset" => pure (.iset (← (← j.getObjVal? "cell").getNat?) name (← elemsOf j "elems"))
   | "wrap" =>
-    let kind ← match (← (← j.getObjVal? "kind").getStr?) with
-      | "allOf" => pure WKind.allOf
-      | "anyOf" => pure WKind.anyOf
-      | "oneOf" => pure WKind.oneOf
-      | "notField" => pure WKind.notField
-      | s => throw s!"unknown wrapper kind {s}"
-    let opts ← (← (← j.getObjVal? "opts").getArr?).toList.mapM fun o => do
-      let a ← o.getArr?
-      if a.size != 2 then throw "opt: expected [cell, ok]"
-      pure ((← a[0]!.getNat?), (← a[1]!.getBool?))
+    let kind ← wkindOf (← (← j.getObjVal? "kind").getStr?)
+    let opts ← (← (← j.getObjVal? "opts").getArr?).toList.mapM optOfJson
     pure (.wrap kind name (← (← j.getObjVal? "v").getInt?) opts)
+  | "nest" =>
+    let kind ← wkindOf (← (← j.getObjVal? "kind").getStr?)
+    let es ← (← (← j.getObjVal? "elems").getArr?).toList.mapM fun e => do
+      let a ← e.getArr?
+      if a.size != 2 then throw "nest elem: expected [v, [[cell, ok]…]]"
+      let opts ← (← a[1]!.getArr?).toList.mapM optOfJson
+      pure ((← a[0]!.getInt?), opts)
+    pure (.nest (← (← j.getObjVal? "cell").getNat?) name kind es)
   | s => throw s!"unknown call kind {s}"
 
 def nmLetter : Nm → String
@@ -74,7 +87,7 @@ def stepLetter (s : Step) : String :=
   | .store n _ _ => s!"S{nmLetter n}"
   | .check n _ => s!"S{nmLetter n}"
   | .load n => s!"R{nmLetter n}"
-  | .move a _ => s!"R{nmLetter a}"
+  | .move a _ => s!"S{nmLetter a}"
   | .emit _ => "E"
 
 def outcomeToJson : Option Outcome → Json
@@ -106,6 +119,7 @@ def callCells : Call → List Nat
   | .map kc vc _ _ => [kc, vc]
   | .pos b _ n _ => (List.range n).map (b + ·)
   | .wrap _ _ _ os => os.map (·.1)
+  | .nest cW _ _ es => cW :: es.flatMap fun e => e.2.map (·.1)
 
 def run (j : Json) : Except String Json := do
   let calls ← (← (← j.getObjVal? "calls").getArr?).toList.mapM callOfJson
